@@ -13,6 +13,10 @@
 //!   every entropy-consuming call of a party (Participant::new, protocol creation, step2) is
 //!   preceded by `he::env(seed, h(cfg, phase, round, party))` (hook H1) and all parties share one
 //!   common random tape seed.
+//! * A configuration may carry a `chain` of protocols that are run to completion on the same
+//!   `Participant` objects before its own protocol (sections `chained_n*`); the history then lists the
+//!   rounds of the whole sequence and the state/observation/oracle machinery applies unchanged to the
+//!   last protocol. This is what checks that the common random tape stays in step across protocols.
 //! * The observation of a materialised state is, for every party, what `finish()` does (last
 //!   round) or what `step2()` + `send_step2()` do (first round of the relinearisation protocol):
 //!   refusal (panic) or the fingerprint of the produced bytes.
@@ -47,6 +51,7 @@ pub fn describe(rep: &Report) {
          transitions = lattice edges (deliveries from a distinct state) executed; traces_validated_against_impl = histories replayed and \
          compared party by party. non-trivial = every history except the canonical complete one (non-canonical order or an incomplete inbox).",
     );
+    rep.assume("chained sections: every ordered pair (thorough: and triple) of protocols is run to completion on the SAME Participant objects, so the common random tape and all private state are carried from one protocol into the next; only the last protocol's outputs are judged (same oracles), its expectation is the canonical-order run of the same chain; each step's input is a fresh encryption (no data flow between steps), update_secret_key is never called, hence the summed key is constant along a chain");
     rep.assume("rounds are synchronous barriers: step2() is called by all parties after every round-1 message has been delivered (the API carries no round tag; delivering a round-2 message to a party still in round 1 is caller misuse and not explored)");
     rep.assume("each message is delivered at most once and unmodified (duplication, loss and corruption are not part of this property)");
     rep.assume("cipher_to_shares: only party 0 receives and only parties != 0 send (asserted by the code); non-aggregating parties have no inbox, their finish() is not subject to the refusal rule");
@@ -144,6 +149,9 @@ pub struct Cfg {
     /// script of the ternary samples (secret keys, u); AllMax makes every party's key the all-ones polynomial
     #[serde(default = "noise_real")]
     pub tern: Noise,
+    /// protocols run to completion, in this order, on the SAME Participant objects before `proto` (chained sections)
+    #[serde(default, skip_serializing_if = "Vec::is_empty")]
+    pub chain: Vec<Proto>,
 }
 
 fn noise_real() -> Noise {
@@ -155,14 +163,24 @@ impl Cfg {
         h64(&serde_json::to_string(self).unwrap_or_default())
     }
     fn shape(&self) -> String {
-        format!("{}:{:?}", self.proto.name(), self.spec.scheme)
+        if self.chain.is_empty() {
+            format!("{}:{:?}", self.proto.name(), self.spec.scheme)
+        } else {
+            format!("{}:{:?}:after[{}]", self.proto.name(), self.spec.scheme, self.chain.iter().map(|p| p.name()).collect::<Vec<_>>().join(">"))
+        }
+    }
+    /// the whole sequence of protocols run on the same participants
+    fn seq(&self) -> Vec<Proto> {
+        let mut v = self.chain.clone();
+        v.push(self.proto);
+        v
     }
     fn is_ckks(&self) -> bool {
         self.spec.scheme == Scheme::CKKS
     }
     /// the one combination whose creation is refused by the library as documented in its own checks
     fn expected_refusal(&self) -> bool {
-        self.proto == Proto::SharesToCipher && self.spec.scheme == Scheme::BGV
+        self.spec.scheme == Scheme::BGV && self.seq().contains(&Proto::SharesToCipher)
     }
 }
 
@@ -234,7 +252,12 @@ struct Fixture {
     n: usize,
     nslots: usize,
     t: u64,
+    /// message pairs of the LAST protocol of the sequence (the only one for unchained configurations)
     edges: Vec<(usize, usize)>,
+    /// the sequence of protocols, their message pairs, and the global round table (protocol index, local round)
+    seq: Vec<Proto>,
+    seq_edges: Vec<Vec<(usize, usize)>>,
+    rtab: Vec<(usize, usize)>,
     key_moduli: Vec<u64>,
     err: Noise,
     tern: Noise,
@@ -278,6 +301,17 @@ impl Fixture {
     fn reseed(&self, phase: &str, round: usize, party: usize) {
         env(self.seed, h64(&(self.tag, phase, round, party)), self.tern.mode(), self.err.mode());
     }
+    fn edges_at(&self, gr: usize) -> &[(usize, usize)] {
+        &self.seq_edges[self.rtab[gr].0]
+    }
+    fn total_rounds(&self) -> usize {
+        self.rtab.len()
+    }
+    /// is global round `gr` the last round of its protocol (probe = finish) or not (probe = step2 + send)
+    fn final_local(&self, gr: usize) -> bool {
+        let (k, lr) = self.rtab[gr];
+        lr + 1 == self.seq[k].rounds()
+    }
     fn common_seed(&self) -> PRNGSeed {
         let mut s = [0u8; 64];
         for k in 0..8 {
@@ -319,7 +353,7 @@ impl Fixture {
         let low_bits: u32 = cd.parms().coeff_modulus().iter().map(|m| 64 - m.value().leading_zeros()).sum();
         let first_bits: u32 = first.parms().coeff_modulus().iter().map(|m| 64 - m.value().leading_zeros()).sum();
         // CKKS scale: products (relinearisation check) must fit the first level, plain values the lowest level used
-        let scale_bits = if cfg.proto == Proto::RelinKeys { ((first_bits as i64 - 7) / 2).min(30) } else { (low_bits as i64 - 8).min(30) };
+        let scale_bits = if cfg.seq().contains(&Proto::RelinKeys) { ((first_bits as i64 - 7) / 2).min(30) } else { (low_bits as i64 - 8).min(30) };
         let scale = (2.0f64).powi(scale_bits as i32);
         let t = cfg.spec.t;
         let mut msg_u = vec![0u64; nslots];
@@ -344,6 +378,9 @@ impl Fixture {
             nslots,
             t,
             edges: cfg.proto.edges(n),
+            seq: cfg.seq(),
+            seq_edges: cfg.seq().iter().map(|p| p.edges(n)).collect(),
+            rtab: cfg.seq().iter().enumerate().flat_map(|(k, p)| (0..p.rounds()).map(move |lr| (k, lr))).collect(),
             key_moduli,
             err: cfg.err,
             tern: cfg.tern,
@@ -381,7 +418,8 @@ impl Fixture {
         fx.sk_sum = sk_sum.clone();
         fx.reseed("fx-pk", 0, 0);
         fx.pk_sum = KeyGenerator::from_sk(ctx.clone(), sk_sum.clone()).create_public_key(false);
-        if cfg.proto.has_cipher_input() {
+        let seq = cfg.seq();
+        if seq.iter().any(|p| p.has_cipher_input()) {
             fx.reseed("fx-ct", 0, 0);
             let enc = Encryptor::new(ctx.clone()).set_public_key(fx.pk_sum.clone());
             let mut ct = enc.encrypt_new(&fx.plain_of(cfg, &fx.msg_u, &fx.msg_c));
@@ -391,7 +429,7 @@ impl Fixture {
             }
             fx.cipher = Some(ct);
         }
-        if cfg.proto == Proto::KeySwitch {
+        if seq.contains(&Proto::KeySwitch) {
             let mut parts = vec![];
             for p in 0..n {
                 fx.reseed("fx-newsk", 0, p);
@@ -403,12 +441,12 @@ impl Fixture {
             s.data_mut().copy_from_slice(&sum_keys(&parts, &fx.key_moduli, deg));
             fx.new_sk_sum = Some(s);
         }
-        if cfg.proto == Proto::PubKeySwitch {
+        if seq.contains(&Proto::PubKeySwitch) {
             fx.reseed("fx-target", 0, 0);
             let kg = KeyGenerator::new(ctx.clone());
             fx.target = Some((kg.create_public_key(false), kg.secret_key().clone()));
         }
-        if cfg.proto == Proto::SharesToCipher {
+        if seq.contains(&Proto::SharesToCipher) {
             for p in 0..n {
                 if ckks {
                     fx.shares_c.push((0..nslots).map(|k| fx.msg_c[(k + p) % nslots] * C64::new(1.0, 0.0) + C64::new(p as f64 / 4.0, -(p as f64) / 2.0)).collect());
@@ -471,8 +509,8 @@ impl Out {
     }
 }
 
-fn create<'a>(cfg: &Cfg, fx: &Fixture, p: usize, party: &'a mut Participant) -> Obj<'a> {
-    match cfg.proto {
+fn create<'a>(cfg: &Cfg, proto: Proto, fx: &Fixture, p: usize, party: &'a mut Participant) -> Obj<'a> {
+    match proto {
         Proto::PublicKey => Obj::Pk(party.generate_public_key()),
         Proto::RelinKeys => Obj::Rlk(party.generate_relin_keys(), 0),
         Proto::RevealSk => Obj::Sk(party.reveal_secret_key()),
@@ -588,87 +626,102 @@ fn run(cfg: &Cfg, fx: &Fixture, hist: &[Vec<usize>]) -> Result<RunOut, RunErr> {
             return Err(RunErr::Fail(mkfail(cfg, "harness:replay-not-deterministic", "a replayed participant has the secret key of the first creation", format!("party {p} differs"))));
         }
     }
-    let mut objs: Vec<Option<Obj>> = Vec::with_capacity(n);
-    for (p, party) in parties.iter_mut().enumerate() {
-        fx.reseed("proto", 0, p);
-        match guard(|| create(cfg, fx, p, party)) {
-            Ok(o) => objs.push(Some(o)),
-            Err(e) => {
-                if e.contains("[Invalid argument]") {
-                    return Err(RunErr::Refused(e));
-                }
-                return Err(RunErr::Fail(mkfail(cfg, &format!("create:panic:{}", panic_class(&e)), format!("party {p} can start the protocol"), e)));
-            }
-        }
-    }
-    let senders: BTreeSet<usize> = fx.edges.iter().map(|e| e.0).collect();
-    let last_round = cfg.proto.rounds() - 1;
     let mut receives = 0u64;
     let mut leftover = 0usize;
-    for (r, deliveries) in hist.iter().enumerate() {
-        let mut msgs: Vec<Option<Vec<u8>>> = vec![None; n];
-        for &s in &senders {
-            let mut v = vec![];
-            match guard(|| objs[s].as_ref().unwrap().send(&mut v)) {
-                Ok(Ok(())) => {}
-                Ok(Err(e)) => return Err(RunErr::Fail(mkfail(cfg, "send:io-error", format!("party {s} can serialise its round-{r} message"), e.to_string()))),
-                Err(e) => return Err(RunErr::Fail(mkfail(cfg, &format!("send:panic:{}", panic_class(&e)), format!("party {s} can serialise its round-{r} message"), e))),
-            }
-            msgs[s] = Some(v);
-        }
-        for &e in deliveries {
-            let (s, rcv) = fx.edges[e];
-            let bytes = msgs[s].as_ref().unwrap();
-            match guard(|| objs[rcv].as_mut().unwrap().receive(s, bytes)) {
-                Ok(Ok(left)) => leftover = leftover.max(left),
-                Ok(Err(er)) => return Err(RunErr::Fail(mkfail(cfg, "receive:io-error", format!("party {rcv} accepts the round-{r} message of party {s}"), er.to_string()))),
-                Err(er) => return Err(RunErr::Fail(mkfail(cfg, &format!("receive:panic:{}", panic_class(&er)), format!("party {rcv} accepts the round-{r} message of party {s}"), er))),
-            }
-            receives += 1;
-        }
-        if r + 1 < hist.len() {
-            for p in 0..n {
-                fx.reseed("advance", r, p);
-                if let Err(e) = guard(|| objs[p].as_mut().unwrap().advance()) {
-                    return Err(RunErr::Fail(mkfail(cfg, &format!("step2:complete-inbox-refused:{}", panic_class(&e)), format!("party {p} with a complete round-{r} inbox can start round {}", r + 1), e)));
-                }
-            }
-        }
-    }
-    // probe
-    let r = hist.len() - 1;
-    let mut obs = vec![];
-    let mut outs = vec![];
-    for p in 0..n {
-        let o = objs[p].take().unwrap();
-        if r == last_round {
-            match guard(|| o.finish(fx)) {
-                Ok(out) => {
-                    obs.push(Ok(out.fp()));
-                    outs.push(Some(out));
-                }
+    let mut gr = 0usize;
+    for (k, &proto) in fx.seq.iter().enumerate() {
+        let mut objs: Vec<Option<Obj>> = Vec::with_capacity(n);
+        for (p, party) in parties.iter_mut().enumerate() {
+            fx.reseed("proto", k, p);
+            match guard(|| create(cfg, proto, fx, p, party)) {
+                Ok(o) => objs.push(Some(o)),
                 Err(e) => {
-                    obs.push(Err(e));
-                    outs.push(None);
+                    if e.contains("[Invalid argument]") {
+                        return Err(RunErr::Refused(e));
+                    }
+                    return Err(RunErr::Fail(mkfail(cfg, &format!("create:{}:panic:{}", proto.name(), panic_class(&e)), format!("party {p} can start {}", proto.name()), e)));
                 }
             }
-        } else {
-            fx.reseed("advance", r, p);
-            let mut o = o;
-            let res = guard(|| {
-                o.advance();
+        }
+        let edges = &fx.seq_edges[k];
+        let senders: BTreeSet<usize> = edges.iter().map(|e| e.0).collect();
+        for lr in 0..proto.rounds() {
+            let r = gr;
+            let mut msgs: Vec<Option<Vec<u8>>> = vec![None; n];
+            for &s in &senders {
                 let mut v = vec![];
-                o.send(&mut v).map(|_| v)
-            });
-            match res {
-                Ok(Ok(v)) => obs.push(Ok(h64(&v))),
-                Ok(Err(e)) => obs.push(Err(format!("io error: {e}"))),
-                Err(e) => obs.push(Err(e)),
+                match guard(|| objs[s].as_ref().unwrap().send(&mut v)) {
+                    Ok(Ok(())) => {}
+                    Ok(Err(e)) => return Err(RunErr::Fail(mkfail(cfg, "send:io-error", format!("party {s} can serialise its round-{r} message"), e.to_string()))),
+                    Err(e) => return Err(RunErr::Fail(mkfail(cfg, &format!("send:panic:{}", panic_class(&e)), format!("party {s} can serialise its round-{r} message"), e))),
+                }
+                msgs[s] = Some(v);
             }
-            outs.push(None);
+            for &e in &hist[r] {
+                let (s, rcv) = edges[e];
+                let bytes = msgs[s].as_ref().unwrap();
+                match guard(|| objs[rcv].as_mut().unwrap().receive(s, bytes)) {
+                    Ok(Ok(left)) => leftover = leftover.max(left),
+                    Ok(Err(er)) => return Err(RunErr::Fail(mkfail(cfg, "receive:io-error", format!("party {rcv} accepts the round-{r} message of party {s}"), er.to_string()))),
+                    Err(er) => return Err(RunErr::Fail(mkfail(cfg, &format!("receive:panic:{}", panic_class(&er)), format!("party {rcv} accepts the round-{r} message of party {s}"), er))),
+                }
+                receives += 1;
+            }
+            let final_local = lr + 1 == proto.rounds();
+            if r + 1 == hist.len() {
+                // probe: the history ends here
+                let mut obs = vec![];
+                let mut outs = vec![];
+                for p in 0..n {
+                    let o = objs[p].take().unwrap();
+                    if final_local {
+                        match guard(|| o.finish(fx)) {
+                            Ok(out) => {
+                                obs.push(Ok(out.fp()));
+                                outs.push(Some(out));
+                            }
+                            Err(e) => {
+                                obs.push(Err(e));
+                                outs.push(None);
+                            }
+                        }
+                    } else {
+                        fx.reseed("advance", r, p);
+                        let mut o = o;
+                        let res = guard(|| {
+                            o.advance();
+                            let mut v = vec![];
+                            o.send(&mut v).map(|_| v)
+                        });
+                        match res {
+                            Ok(Ok(v)) => obs.push(Ok(h64(&v))),
+                            Ok(Err(e)) => obs.push(Err(format!("io error: {e}"))),
+                            Err(e) => obs.push(Err(e)),
+                        }
+                        outs.push(None);
+                    }
+                }
+                return Ok(RunOut { obs, outs, receives, leftover });
+            }
+            // a later round follows: this round must be complete
+            for p in 0..n {
+                if final_local {
+                    // a protocol of the chain prefix runs to completion; its output is dropped
+                    let o = objs[p].take().unwrap();
+                    if let Err(e) = guard(|| o.finish(fx)) {
+                        return Err(RunErr::Fail(mkfail(cfg, &format!("finish:{}:complete-inbox-refused:{}", proto.name(), panic_class(&e)), format!("party {p} with a complete inbox finishes {}", proto.name()), e)));
+                    }
+                } else {
+                    fx.reseed("advance", r, p);
+                    if let Err(e) = guard(|| objs[p].as_mut().unwrap().advance()) {
+                        return Err(RunErr::Fail(mkfail(cfg, &format!("step2:complete-inbox-refused:{}", panic_class(&e)), format!("party {p} with a complete round-{r} inbox can start round {}", r + 1), e)));
+                    }
+                }
+            }
+            gr += 1;
         }
     }
-    Ok(RunOut { obs, outs, receives, leftover })
+    Err(RunErr::Fail(mkfail(cfg, "harness:history-longer-than-the-protocol-sequence", "a history within the rounds of the sequence", format!("{} rounds listed", hist.len()))))
 }
 
 // ---------------------------------------------------------------------------------------------
@@ -683,12 +736,12 @@ fn mask_of(v: &[usize]) -> u64 {
     v.iter().fold(0u64, |m, &e| m | 1u64 << e)
 }
 
-fn hist_json(fx_edges: &[(usize, usize)], hist: &[Vec<usize>]) -> Value {
-    json!(hist.iter().map(|r| r.iter().map(|&e| vec![fx_edges[e].0, fx_edges[e].1]).collect::<Vec<_>>()).collect::<Vec<_>>())
+fn hist_json(fx: &Fixture, hist: &[Vec<usize>]) -> Value {
+    json!(hist.iter().enumerate().map(|(gr, r)| r.iter().map(|&e| vec![fx.edges_at(gr)[e].0, fx.edges_at(gr)[e].1]).collect::<Vec<_>>()).collect::<Vec<_>>())
 }
 
-fn case_json(cfg: &Cfg, edges: &[(usize, usize)], hist: &[Vec<usize>]) -> Value {
-    json!({"cfg": cfg, "hist": hist_json(edges, hist)})
+fn case_json(cfg: &Cfg, fx: &Fixture, hist: &[Vec<usize>]) -> Value {
+    json!({"cfg": cfg, "hist": hist_json(fx, hist)})
 }
 
 /// reference observations: refs[r][p] = fingerprint party p shows when probed after the canonical complete rounds 0..=r
@@ -698,7 +751,7 @@ struct Refs {
 }
 
 fn canonical(fx: &Fixture, rounds: usize) -> Vec<Vec<usize>> {
-    (0..rounds).map(|_| (0..fx.edges.len()).collect()).collect()
+    (0..rounds).map(|gr| (0..fx.edges_at(gr).len()).collect()).collect()
 }
 
 enum RefErr {
@@ -709,9 +762,10 @@ enum RefErr {
 fn reference(cfg: &Cfg, fx: &Fixture) -> Result<Refs, RefErr> {
     let mut obs = vec![];
     let mut outs = vec![];
-    for r in 0..cfg.proto.rounds() {
+    let total = fx.total_rounds();
+    for r in 0..total {
         let hist = canonical(fx, r + 1);
-        let cj = case_json(cfg, &fx.edges, &hist);
+        let cj = case_json(cfg, fx, &hist);
         match run(cfg, fx, &hist) {
             Err(RunErr::Refused(e)) => {
                 if cfg.expected_refusal() {
@@ -726,7 +780,7 @@ fn reference(cfg: &Cfg, fx: &Fixture) -> Result<Refs, RefErr> {
                     match o {
                         Ok(h) => row.push(*h),
                         Err(e) => {
-                            let op = if r + 1 == cfg.proto.rounds() { "finish" } else { "step2" };
+                            let op = if fx.final_local(r) { "finish" } else { "step2" };
                             return Err(RefErr::Fail(
                                 cj,
                                 mkfail(cfg, &format!("{op}:complete-inbox-refused:{}", panic_class(e)), format!("party {p} completes after receiving every other party's message"), e.clone()),
@@ -735,7 +789,7 @@ fn reference(cfg: &Cfg, fx: &Fixture) -> Result<Refs, RefErr> {
                     }
                 }
                 obs.push(row);
-                if r + 1 == cfg.proto.rounds() {
+                if r + 1 == total {
                     outs = ro.outs.into_iter().map(|o| o.unwrap()).collect();
                 }
             }
@@ -744,8 +798,8 @@ fn reference(cfg: &Cfg, fx: &Fixture) -> Result<Refs, RefErr> {
     Ok(Refs { obs, outs })
 }
 
-fn inbox_complete(fx: &Fixture, p: usize, mask: u64) -> bool {
-    fx.edges.iter().enumerate().all(|(i, e)| e.1 != p || mask >> i & 1 == 1)
+fn inbox_complete(fx: &Fixture, gr: usize, p: usize, mask: u64) -> bool {
+    fx.edges_at(gr).iter().enumerate().all(|(i, e)| e.1 != p || mask >> i & 1 == 1)
 }
 
 struct Judged {
@@ -760,10 +814,10 @@ struct Judged {
 /// Replay `hist` and compare every party's probe with the expectation derived from the reference.
 fn judge_history(cfg: &Cfg, fx: &Fixture, refs: &Refs, hist: &[Vec<usize>]) -> Judged {
     let r = hist.len() - 1;
-    let last = r + 1 == cfg.proto.rounds();
+    let last = r + 1 == fx.total_rounds();
     let mask = mask_of(&hist[r]);
-    let full = mask == mask_of(&(0..fx.edges.len()).collect::<Vec<_>>());
-    let op = if last { "finish" } else { "step2" };
+    let full = mask == mask_of(&(0..fx.edges_at(r).len()).collect::<Vec<_>>());
+    let op = if fx.final_local(r) { "finish" } else { "step2" };
     let mut fails = vec![];
     let mut refusal_classes = vec![];
     match run(cfg, fx, hist) {
@@ -775,7 +829,7 @@ fn judge_history(cfg: &Cfg, fx: &Fixture, refs: &Refs, hist: &[Vec<usize>]) -> J
         Ok(ro) => {
             let mut pattern = vec![];
             for p in 0..cfg.parties {
-                let complete = inbox_complete(fx, p, mask);
+                let complete = inbox_complete(fx, r, p, mask);
                 match (&ro.obs[p], complete) {
                     (Ok(h), true) => {
                         pattern.push(1u8);
@@ -785,13 +839,13 @@ fn judge_history(cfg: &Cfg, fx: &Fixture, refs: &Refs, hist: &[Vec<usize>]) -> J
                                 cfg,
                                 what,
                                 format!("party {p} (inbox complete) returns the bytes of the canonical-order run"),
-                                format!("different bytes after history {}", hist_json(&fx.edges, hist)),
+                                format!("different bytes after history {}", hist_json(fx, hist)),
                             ));
                         }
                     }
                     (Err(e), true) => {
                         pattern.push(2);
-                        fails.push(mkfail(cfg, &format!("{op}:complete-inbox-refused:{}", panic_class(e)), format!("party {p} has received every message addressed to it and completes"), format!("{e}; history {}", hist_json(&fx.edges, hist))));
+                        fails.push(mkfail(cfg, &format!("{op}:complete-inbox-refused:{}", panic_class(e)), format!("party {p} has received every message addressed to it and completes"), format!("{e}; history {}", hist_json(fx, hist))));
                     }
                     (Ok(_), false) => {
                         pattern.push(3);
@@ -799,7 +853,7 @@ fn judge_history(cfg: &Cfg, fx: &Fixture, refs: &Refs, hist: &[Vec<usize>]) -> J
                             cfg,
                             &format!("{op}:incomplete-inbox-accepted"),
                             format!("party {p} has not received every other party's message and refuses"),
-                            format!("returned a result after history {}", hist_json(&fx.edges, hist)),
+                            format!("returned a result after history {}", hist_json(fx, hist)),
                         ));
                     }
                     (Err(e), false) => {
@@ -1149,6 +1203,8 @@ pub enum Mode {
     Lattice,
     /// covering family of orders (non-exhaustive)
     Cover,
+    /// a sequence of protocols on the same participants: canonical and reverse orders, refusal probes in the last protocol
+    Chain,
 }
 
 #[derive(Default)]
@@ -1215,7 +1271,7 @@ impl Acc {
             self.refusal_classes.insert(c);
         }
         for f in j.fails {
-            self.add_fail(|| case_json(cfg, &fx.edges, hist), f);
+            self.add_fail(|| case_json(cfg, fx, hist), f);
         }
     }
 }
@@ -1311,9 +1367,9 @@ fn explore_cfg(cfg: &Cfg, seed: u64, mode: Mode, inner_threads: usize, deadline:
     // semantic oracles on the reference outputs (all other histories must reproduce these bytes)
     let sem = semantic(cfg, &fx, &refs.outs);
     acc.sem_steps += sem.steps;
-    let full = canonical(&fx, cfg.proto.rounds());
+    let full = canonical(&fx, fx.total_rounds());
     for f in sem.fails {
-        acc.add_fail(|| case_json(cfg, &fx.edges, &full), f);
+        acc.add_fail(|| case_json(cfg, &fx, &full), f);
     }
     acc.observations.extend(sem.observations);
     acc.ckks_ratio = fx.ckks_ratio.get();
@@ -1392,6 +1448,62 @@ fn explore_cfg(cfg: &Cfg, seed: u64, mode: Mode, inner_threads: usize, deadline:
                 }
                 debug_assert!(visited.len() as u128 == 1u128 << m);
             }
+        }
+        Mode::Chain => {
+            let total = fx.total_rounds();
+            let canon = canonical(&fx, total);
+            let rev: Vec<Vec<usize>> = canon.iter().map(|r| r.iter().rev().cloned().collect()).collect();
+            let first_last = total - cfg.proto.rounds();
+            let mut hists: Vec<Vec<Vec<usize>>> = vec![];
+            // complete histories: everything reversed; only the prefix reversed; only the last protocol reversed
+            hists.push(rev.clone());
+            hists.push(rev[..first_last].iter().chain(canon[first_last..].iter()).cloned().collect());
+            hists.push(canon[..first_last].iter().chain(rev[first_last..].iter()).cloned().collect());
+            // refusal probes in every round of the last protocol: nothing delivered, all but the last message
+            for base in [&canon, &rev] {
+                for gr in first_last..total {
+                    let m = fx.edges_at(gr).len();
+                    for cut in [0, m - 1] {
+                        let mut h: Vec<Vec<usize>> = base[..gr].to_vec();
+                        h.push(base[gr][..cut].to_vec());
+                        hists.push(h);
+                    }
+                }
+            }
+            let mut done: HashSet<Vec<Vec<usize>>> = HashSet::new();
+            let mut seen: HashSet<(usize, u64)> = HashSet::new();
+            done.insert(canon.clone());
+            for gr in 0..total {
+                // the reference run passed through every prefix state of the canonical order
+                let mut mask = 0u64;
+                seen.insert((gr, 0));
+                for &e in &canon[gr] {
+                    mask |= 1u64 << e;
+                    seen.insert((gr, mask));
+                }
+            }
+            acc.transitions += canon.iter().map(|r| r.len() as u64).sum::<u64>();
+            for h in hists {
+                if Instant::now() > deadline {
+                    acc.capped = true;
+                    return acc;
+                }
+                if !done.insert(h.clone()) {
+                    continue;
+                }
+                for (gr, r) in h.iter().enumerate() {
+                    let mut mask = 0u64;
+                    seen.insert((gr, 0));
+                    for &e in r {
+                        mask |= 1u64 << e;
+                        seen.insert((gr, mask));
+                    }
+                }
+                acc.transitions += h.iter().map(|r| r.len() as u64).sum::<u64>();
+                let j = judge_history(cfg, &fx, &refs, &h);
+                acc.absorb(cfg, &fx, &h, j, false);
+            }
+            acc.states += seen.len() as u64;
         }
         Mode::Cover => {
             for round in 0..rounds {
@@ -1477,10 +1589,13 @@ fn replay_case(case: &Value, seed: u64) -> Result<CaseOut, String> {
         Err(e) => return Ok(CaseOut::fail(format!("{}:fixture:panic:{}", cfg.shape(), panic_class(&e)), "fixture can be built", e)),
     };
     let mut hist: Vec<Vec<usize>> = vec![];
-    for r in &pairs {
+    if pairs.len() > fx.total_rounds() {
+        return Err(format!("{} rounds listed, the sequence has {}", pairs.len(), fx.total_rounds()));
+    }
+    for (gr, r) in pairs.iter().enumerate() {
         let mut row = vec![];
         for pr in r {
-            row.push(fx.edges.iter().position(|e| e == pr).ok_or_else(|| format!("({},{}) is not a message of this protocol", pr.0, pr.1))?);
+            row.push(fx.edges_at(gr).iter().position(|e| e == pr).ok_or_else(|| format!("({},{}) is not a message of round {gr}", pr.0, pr.1))?);
         }
         hist.push(row);
     }
@@ -1492,7 +1607,7 @@ fn replay_case(case: &Value, seed: u64) -> Result<CaseOut, String> {
         Err(RefErr::Skip(w)) => return Ok(CaseOut::skip(&w)),
         Err(RefErr::Fail(_, f)) => return Ok(CaseOut::fail(f.key, f.expected, f.observed)),
     };
-    let full = canonical(&fx, cfg.proto.rounds());
+    let full = canonical(&fx, fx.total_rounds());
     if hist == full {
         let sem = semantic(&cfg, &fx, &refs.outs);
         if let Some(f) = sem.fails.into_iter().next() {
@@ -1737,11 +1852,39 @@ fn cfgs_for(n: usize, cfg: &RunCfg, reduced: bool) -> Vec<Cfg> {
                                 scripts.push((Noise::AllMax, Noise::AllMax));
                             }
                             for &(tern, err) in &scripts {
-                                v.push(Cfg { proto, spec: spec.clone(), parties: n, msg: msgs[mi].clone(), level, shares, err, tern });
+                                v.push(Cfg { proto, spec: spec.clone(), parties: n, msg: msgs[mi].clone(), level, shares, err, tern, chain: vec![] });
                             }
                         }
                     }
                 }
+            }
+        }
+    }
+    v
+}
+
+/// every sequence of `len` protocols (with repetition) on the same participants; primes [30,35,40], dense plaintext, first level
+fn chain_cfgs(n: usize, lens: &[usize]) -> Vec<Cfg> {
+    let mut v = vec![];
+    let protos = Proto::all();
+    for &len in lens {
+        for scheme in Scheme::all() {
+            let spec = param_sets(scheme).remove(1);
+            let msg = msgs_for(scheme, 17, 8).remove(2);
+            let count = protos.len().pow(len as u32);
+            for idx in 0..count {
+                let mut seq = vec![];
+                let mut x = idx;
+                for _ in 0..len {
+                    seq.push(protos[x % protos.len()]);
+                    x /= protos.len();
+                }
+                seq.reverse();
+                if scheme == Scheme::BGV && seq.contains(&Proto::SharesToCipher) {
+                    continue; // creation is refused by the library ([Invalid argument]), see lattice sections
+                }
+                let proto = seq.pop().unwrap();
+                v.push(Cfg { proto, spec: spec.clone(), parties: n, msg: msg.clone(), level: 0, shares: ShareMode::Sampler, err: Noise::Real, tern: Noise::Real, chain: seq });
             }
         }
     }
@@ -1782,15 +1925,34 @@ pub fn sections(cfg: &RunCfg) -> Vec<Box<dyn AnySection>> {
             budget_share: share,
         })
     };
+    let chained = |n: usize, share: f64| -> Box<dyn AnySection> {
+        let lens: &[usize] = if th { &[2, 3] } else { &[2] };
+        Box::new(E5Section {
+            name: format!("chained_n{n}"),
+            bound: format!(
+                "n={n}: EVERY ordered {} of the 8 protocols (repetition allowed) run to completion one after the other on the SAME Participant objects (common random tape and private state carried over) x {{BFV,BGV,CKKS}}, primes [30,35,40] bits, dense plaintext, library share sampler; delivery orders: canonical, all rounds reversed, only the prefix reversed, only the last protocol reversed; in every round of the last protocol the empty and the all-but-one delivered sets are probed for refusal; the LAST protocol's outputs are judged with the oracles of the lattice sections (byte-identical keys, semantics under the summed key / target key, shares sum). Excluded: sequences containing shares_to_cipher under BGV (creation refused by the library). No protocol changes the participants' secret keys and update_secret_key is never called, so the summed key is the same at every step; key_switch / public_key_switch outputs are judged under their own target keys; inputs of every step are fresh encryptions of the plaintext (no data flow between steps)",
+                if th { "pair and triple" } else { "pair" }
+            ),
+            cfgs: chain_cfgs(n, lens),
+            mode: Mode::Chain,
+            seed,
+            inner_parallel: false,
+            budget_share: share,
+        })
+    };
     if th {
         v.push(lattice(2, false, false, 0.1));
         v.push(lattice(3, false, false, 0.3));
+        v.push(chained(2, 0.2));
+        v.push(chained(3, 0.3));
         v.push(cover(5, 0.2));
         v.push(cover(6, 0.3));
         v.push(lattice(4, true, true, 1.0));
     } else {
         v.push(lattice(2, false, false, 0.2));
         v.push(lattice(3, false, false, 0.7));
+        v.push(chained(2, 0.3));
+        v.push(chained(3, 0.5));
         v.push(cover(5, 0.5));
         v.push(cover(6, 1.0));
     }
